@@ -41,6 +41,10 @@ def run_case(draw):
     init = draw(st.booleans())
     lim = 0.45
     r = [draw(gens.fl(-lim, lim)) for _ in range(3)]
+    if draw(st.integers(0, 2)) == 0:
+        # corners of the box, in particular large yaw offsets (heading error beyond 90 degrees when not initialised)
+        r = [draw(st.sampled_from([0.0, 0.1, -0.1, 0.3])), draw(st.sampled_from([0.0, 0.1, -0.1, -0.3])),
+             draw(st.sampled_from([0.45, -0.45, 0.43, -0.44]))]
     if init and draw(st.booleans()):
         # larger attitudes when the estimator initialises from measurements
         ax = draw(gens.axis())
@@ -52,7 +56,7 @@ def run_case(draw):
         b[j] = draw(st.sampled_from([-0.08, 0.08, 0.06, -0.06]))
     return {"r": r, "b": b, "initialize": init, "incl": draw(gens.fl(-1.2, 1.2)), "decl": draw(gens.fl(-0.5, 0.5)),
             "dt_sim": draw(st.sampled_from([1 / 800.0, 1 / 400.0, 1 / 200.0])),
-            "dt_imu": draw(st.sampled_from([1 / 400.0, 1 / 200.0, 1 / 100.0])),
+            "dt_imu": draw(st.sampled_from([1 / 400.0, 1 / 200.0, 1 / 100.0, 1 / 50.0])),
             "dt_mag": draw(st.sampled_from([1 / 50.0, 1 / 20.0, 1 / 10.0])),
             "dt_log": draw(st.sampled_from([1 / 200.0, 1 / 100.0])), "tf": float(draw(st.integers(20, 30))),
             "mag_str": draw(st.sampled_from([0.1, 0.5, 1.0])), "g": 9.8}
@@ -123,14 +127,16 @@ def check_run(case):
         e = ref.rot_dist(ref.quat_to_R(sim["q"][i]), ref.quat_to_R(est["q"][i]))
         if e > worst:
             worst, wi = e, i
-    if worst > ATT_TOL:
-        raise Violation("attitude error %.4f rad at t=%.2f s (> %.2f rad after the %g s transient)" % (worst, t[wi], ATT_TOL, T_CONV), **case)
+    coarse = max(case["dt_imu"], case["dt_sim"]) > 0.0101  # 50 Hz IMU: 0.2 rad per RK4 step at the simulated 10 rad/s
+    att_tol = 0.15 if coarse else ATT_TOL
+    if worst > att_tol:
+        raise Violation("attitude error %.4f rad at t=%.2f s (> %.2f rad after the %g s transient)" % (worst, t[wi], att_tol, T_CONV), **case)
     # ---- bias convergence: all three components
     last = np.where((t >= case["tf"] - 5.0) & (est["time"] == sim["time"]))[0]
     be = np.mean(est["b"][last] - sim["b"][last], axis=0)
     b0 = -np.array(case["b"])  # estimator starts at zero bias
     for k in range(3):
-        tol = max(0.35 * abs(b0[k]), 0.02)
+        tol = max(0.35 * abs(b0[k]), 0.05 if coarse else 0.02)
         if abs(be[k]) > tol:
             raise Violation("gyro-bias component %d: error %.4f rad/s averaged over the last 5 s (initial error %.4f, allowed %.4f) "
                             "- the estimate does not approach the true bias" % (k, be[k], b0[k], tol), bias_err=be.tolist(), **case)
@@ -204,9 +210,58 @@ def check_sens(case):
             raise Violation("simulate: attitude error %.3e vs exact rate integration (theta = %.3g)" % (err, th), **case)
 
 
+DEFAULTS = {"sim/g": 9.8, "sim/mag_str": 0.1, "sim/mag_incl": 0.0, "sim/mag_decl": 0.0, "sim/dt_imu": 1.0 / 200, "sim/dt_mag": 1.0 / 50,
+            "sim/dt_sim": 1.0 / 400, "logger/dt": 1.0 / 200, "mrp/mag_decl": 0.0, "mrp/g": 9.8, "mrp/dt_min_accel": 1.0 / 200,
+            "mrp/dt_min_mag": 1.0 / 200, "mrp/std_mag": 2.5e-3, "mrp/std_accel": 35.0e-3}
+CHOICES = {"sim/g": [9.5, 9.81, 10.2], "sim/mag_str": [0.5, 0.05, 1.0], "sim/mag_incl": [0.5, -1.0], "sim/mag_decl": [0.2, -0.3],
+           "sim/dt_imu": [1 / 100.0, 1 / 400.0], "logger/dt": [1 / 100.0, 1 / 50.0], "mrp/mag_decl": [0.2], "mrp/g": [9.5, 10.2],
+           "mrp/dt_min_accel": [1 / 50.0, 1 / 100.0], "mrp/std_mag": [1e-2], "sim/dt_mag": [1 / 20.0]}
+
+
+@st.composite
+def hist_case(draw):
+    runs = []
+    for _ in range(draw(st.integers(2, 4))):
+        keys = draw(st.lists(st.sampled_from(sorted(CHOICES)), max_size=4, unique=True))
+        runs.append({"params": {k: draw(st.sampled_from(CHOICES[k])) for k in keys}, "initialize": draw(st.booleans())})
+    return {"runs": runs}
+
+
+def check_history(case):
+    m = launch()
+    for i, r in enumerate(case["runs"]):
+        prm = dict(r["params"])
+        prm["sim/enable_noise"] = False
+        with cy.quiet():
+            log = m.launch_sim({"tf": 1.0, "estimators": ["mrp"], "initialize": r["initialize"], "x0": [0.1, -0.1, 0.2, 0.01, 0.0, -0.01],
+                                "name": "h%d" % i, "params": prm})
+        want = dict(DEFAULTS)
+        want.update(r["params"])
+        rec = log["params"][-1]
+        for k, v in want.items():
+            got = float(rec[k])
+            if abs(got - v) > 1e-12 * (1 + abs(v)):
+                raise Violation("run %d of a sequence in one process used %s = %r, expected %r (its own params %s; earlier runs: %s)" % (
+                    i, k, got, v, r["params"], [x["params"] for x in case["runs"][:i]]), **case)
+        a = log["imu"]["accel"]
+        a = a[~np.isnan(a[:, 0])]
+        y = log["mag"]["mag"]
+        y = y[~np.isnan(y[:, 0])]
+        if len(a) == 0 or len(y) == 0:
+            raise Violation("run %d of a sequence: no sensor messages logged" % i, **case)
+        if abs(np.linalg.norm(a[-1]) - want["sim/g"]) > 1e-6 or abs(np.linalg.norm(y[-1]) - want["sim/mag_str"]) > 1e-6 * want["sim/mag_str"]:
+            raise Violation("run %d of a sequence: sensor magnitudes %.6g / %.6g, configured %.6g / %.6g" % (
+                i, np.linalg.norm(a[-1]), np.linalg.norm(y[-1]), want["sim/g"], want["sim/mag_str"]), **case)
+        dtl = np.diff(log["time"])
+        if len(dtl) and abs(np.median(dtl) - want["logger/dt"]) > 1e-9:
+            raise Violation("run %d of a sequence: logger period %.6g, configured %.6g" % (i, np.median(dtl), want["logger/dt"]), **case)
+
+
 def build(tier):
     cells = [
-        Cell("closed_loop", run_case(), check_run, run_nontrivial, run_classify, quick=8, thorough=320, shrink=False,
+        Cell("launch_history", hist_case(), check_history, lambda c: any(r["params"] for r in c["runs"][:-1]),
+             lambda c: ["runs:%d" % len(c["runs"])], quick=16, thorough=300, shrink=False, shards_quick=8, shards_thorough=16, weight=500.0),
+        Cell("closed_loop", run_case(), check_run, run_nontrivial, run_classify, quick=24, thorough=480, shrink=False,
              shards_quick=8, shards_thorough=16, weight=1000.0, build=lambda: launch()),
         Cell("sensor_model", sens_case(), check_sens, lambda c: c["rot"]["angle"] > 1e-2, None, quick=1500, thorough=30000,
              build=lambda: sim_eqs()),
@@ -220,7 +275,10 @@ def build(tier):
             "<= 0.05 rad on every synchronous logged row; each gyro-bias error component averaged over the last 5 s is <= max(0.35 "
             "|initial error|, 0.02) rad/s; thresholds were calibrated on the repaired tree (worst observed 0.02 rad / 0.0085 rad/s) "
             "and keep >= 2.3x margin",
-            "dt_imu is clamped to >= dt_sim (the simulator cannot publish faster than it steps)",
+            "dt_imu is clamped to >= dt_sim (the simulator cannot publish faster than it steps); with a 50 Hz IMU (0.2 rad per "
+            "prediction step at the simulated rates) the bounds are 0.15 rad / 0.05 rad/s (observed on the repaired tree: 0.063 rad)",
+            "launch_history: several launch_sim calls in one process; the parameters each run actually used (the logged params "
+            "topic and the sensor magnitudes) must be the documented defaults overridden only by that call's own params",
             "failing runs are not shrunk (each run costs seconds); the replay file holds the generated run parameters",
         ],
         "matchers": {},
